@@ -719,7 +719,7 @@ theorem fresh_hot_trace (cfg : Cfg) (hhot : cfg.Hot) {s : St} (hi : Inv Pend.idl
   have hnn' : needsNew (newSub s) = true := hnn
   have e1 : r1 cfg (newSub s) =
       { (newSub s) with refCount := s.refCount + 1,
-                        gens := (fun k => if k = s.ngens then { subj := Subj.new cfg.conn } else s.gens k),
+                        gens := (fun k => if k = s.ngens then { subj := Subj.new cfg.conn, creator := s.nsubs } else s.gens k),
                         ngens := s.ngens + 1, subject := some s.ngens, sourceSubscription := some s.ngens } := by
     unfold r1
     rw [if_pos hnn']
